@@ -772,6 +772,9 @@ func (in *Interp) renderConc(v Val, m Model, memo map[int]uint64) string {
 	return fmt.Sprintf("%T", v)
 }
 
+// trimTerms: term-table size at which composite terms are dropped between paths.
+const trimTerms = 1_500_000
+
 // Explore runs entry on all feasible paths.
 func (in *Interp) Explore(run func()) {
 	in.pending = []pendingPath{{in.startPrefix, Model{}}}
@@ -787,6 +790,13 @@ func (in *Interp) Explore(run func()) {
 		}
 		p := in.pending[len(in.pending)-1]
 		in.pending = in.pending[:len(in.pending)-1]
+		if in.tt.Size() > trimTerms {
+			// bound the memory of long items: composite terms of finished
+			// paths are garbage
+			in.tt.Trim()
+			in.solver.Reset()
+			in.lastReset = in.solver.Queries
+		}
 		if in.solver.Queries-in.lastReset > 4000 {
 			in.solver.Reset()
 			in.lastReset = in.solver.Queries
